@@ -25,11 +25,18 @@ async def _run_chunk(uni, backend, scripts, sync_writer, storage_options, reuse)
     from . import storedrv as D
 
     out = []
+    opts = dict(storage_options)
+    sql_file = opts.pop("_sql_file", False)        # SQLite on a file (a real connection pool) instead of :memory:
+    keydump = None
+    if opts.pop("_keydump", False):
+        from .checks import kvfam
+
+        keydump = kvfam._keydump(backend, uni)     # complete row / key dump after every step (line field _keys)
     for sc in scripts:
         with C.Scratch() as d:
-            st = await D.open_storage(backend, d if backend == "lmdb" else None, sync_writer=sync_writer, **dict(storage_options))
+            st = await D.open_storage(backend, d if backend == "lmdb" or sql_file else None, sync_writer=sync_writer, **opts)
             try:
-                out.append(await D.run_script(st, backend, uni, sc))
+                out.append(await D.run_script(st, backend, uni, sc, keydump=keydump))
             finally:
                 await D.close_storage(st)
     return out
